@@ -21,7 +21,8 @@ META = {
              "gradient-supplying geometries and on conditional distributions, and compares with the exact expected vector."),
     "note": ("A raised exception is accepted wherever a vector is specified (the property only constrains returned vectors) and is "
              "reported as an observation; FD results are compared at forward-difference accuracy; PDE-based models, "
-             "DistributionGallery targets and user-supplied gradient callables are not modelled."),
+             "DistributionGallery targets are not modelled; user-defined distributions: pass-through of gradient_func, refusal "
+             "without one, finite differences of logpdf_func."),
     "technique": "TLA+ spec (Families, SymLog) model-checked with TLC; TLC-emitted exact gradients replayed into cuqi objects",
 }
 
@@ -147,6 +148,8 @@ def check_family(ctx, table, case, extras):
     variants = fc.mrf_variants(case, callable_way=False) if mrf else fc.family_variants(case, callable_way=False)
     for way, builder in variants:
         _grad_checks(ctx, table, case, fam, way, d, builder, x, gexp, extra=extra, fd_ok=fd_ok)
+    if fam == "Normal":
+        check_userdefined(ctx, case)
     if not extras:
         return
     # geometry kinds
@@ -175,6 +178,35 @@ def check_family(ctx, table, case, extras):
     ctx.case(("gradcond", fc.case_id(case)), facet="gradient_conditional")
     judge(ctx, case, _sig("gradient", fam, "conditional", d, case), _outcome(table, fam, True, "identity", False),
           fc.call(lambda: lik.gradient(**{"c_" + n: np.array(vals[n]) for n in names})), None, d, tag="%s/conditional" % fam)
+
+
+def check_userdefined(ctx, case):
+    """User-defined family on the lattice point of a Normal case: log-density f(z) = E + g.(z - x) (E, g = TLC's exact
+    value and gradient).  gradient_func given -> that vector; not given -> refused; enable_FD -> derivative of f."""
+    import cuqi
+    from cuqiverif import families_common as fc
+    d = case["dim"]
+    x = fc.vec(case["x"])
+    g = fc.expected_grad(case)
+    E = fc.expected_logpdf(case)
+    cls = getattr(cuqi.distribution, "UserDefinedDistribution", None)
+    if cls is None or g is None or not math.isfinite(E):
+        return
+    f = lambda z: E + float(g @ (np.asarray(z, dtype=float).ravel() - x))      # noqa: E731
+    cid = fc.case_id(case)
+    for way, kw, outcome in (("logpdf+gradient", {"gradient_func": (lambda z: np.array(g))}, "Value"), ("logpdf", {}, "Refused")):
+        st, dist, _ = fc.call(lambda: cls(dim=d, logpdf_func=f, **kw))
+        if st == "raise":
+            _obs(ctx, "construction_failed", "UserDefined/" + way)
+            continue
+        ctx.case(("grad", cid, "userdefined", way), facet="gradient_userdefined")
+        judge(ctx, case, _sig("gradient", "UserDefined", way, d, case), outcome,
+              fc.call(lambda: dist.gradient(np.array(x))), g, d, tag="UserDefined/" + way)
+        st2, _, _ = fc.call(lambda: dist.enable_FD())
+        if st2 == "value":
+            ctx.case(("gradFD", cid, "userdefined", way), facet="gradient_userdefined_fd")
+            judge(ctx, case, _sig("gradientFD", "UserDefined", way, d, case), "ValueFD",
+                  fc.call(lambda: dist.gradient(np.array(x))), g, d, fd=True, logf=E, tag="UserDefined/%s/FD" % way)
 
 
 # ------------------------------------------------------------------ Gaussian input forms
@@ -441,6 +473,9 @@ def run(ctx):
         lst = fams[fam]
         if fam in ("GMRF", "LMRF", "CMRF"):
             lst = [v for v in (c04.pick_mrf_variant(ctx, vs, cache) for _, vs in sorted(c04.mrf_groups(lst).items())) if v is not None]
+        # TLC's workers emit in a scheduling-dependent order: canonical order, so that which cases receive the extra
+        # rows below is the same in every run
+        lst = sorted(lst, key=fc.case_id)
         # geometry kinds / conditional rows of the table: a spread of cases per family
         step = max(1, len(lst) // (12 if ctx.tier == "quick" else 60))
         for i, c in enumerate(lst):
@@ -449,7 +484,7 @@ def run(ctx):
     ctx.observations["cases_per_family"] = {f: len(v) for f, v in fams.items()}
     ctx.observations["decision_table_rows"] = len(table)
     for f in ("CMRF", "InverseGamma", "Lik"):
-        c = fams[f][len(fams[f]) // 2]
+        c = sorted(fams[f], key=fc.case_id)[len(fams[f]) // 2]
         ctx.sample({k: c[k] for k in ("fam", "dim", "par", "x", "grad", "inside", "mrf", "mk", "A", "lam", "logy", "gradlik", "gradpost")
                     if k in c})
     ctx.sample({"decision_table": [[k[0], k[1], k[2], k[3], v] for k, v in sorted(table.items()) if k[0] in ("Beta", "Normal")]})
